@@ -307,7 +307,8 @@ void run_c08() {
     int fk = static_cast<int>(choose(S_FAULT, 6));
     if (fk == F_FSYNC_ERR && !p.fsync) { fk = F_WRITE_ERR; }
     if (fk == F_ENCODER && p.format != 2) { fk = F_WRITE_ERR; }              // only the OPL encoder validates UTF-8
-    if (fk == F_COMPRESSOR && !(p.format == 3 && p.options.find("pbf_compression=none") == std::string::npos && p.options.find("lz4") == std::string::npos)) { fk = F_WRITE_ERR; }
+    // a compressor exists if the file is gzip/bzip2 compressed or if it is PBF with zlib or lz4 blobs
+    if (fk == F_COMPRESSOR && !(p.compression != 0 || (p.format == 3 && p.options.find("pbf_compression=none") == std::string::npos))) { fk = F_WRITE_ERR; }
     std::string fault_desc = "none";
     simfs::Fault fault;
     fault.path = path;
@@ -352,7 +353,7 @@ void run_c08() {
             fault_desc = "none";
         }
     } else if (fk == F_COMPRESSOR) {
-        fault_desc = "compress2() fails on call #";
+        fault_desc = "compressor (deflate/BZ2_bzCompress/LZ4_compress_fast) fails on call #";
     }
 
     // ---- run under test
@@ -367,7 +368,7 @@ void run_c08() {
     if (fk == F_WRITE_ERR || fk == F_FSYNC_ERR || fk == F_CLOSE_ERR) { simfs::add_fault(fault); }
     unsigned compress_fail_call = 0;
     if (fk == F_COMPRESSOR) {
-        compress_fail_call = choose(S_FAULT, 4);
+        compress_fail_call = choose(S_FAULT, 12);
         sim::set_compress_fail_at(static_cast<int>(compress_fail_call));
         fault_desc += std::to_string(compress_fail_call);
     }
@@ -376,7 +377,7 @@ void run_c08() {
     for (const auto& f : simfs::faults()) { fired += f.fired; }
     if (fk == F_COMPRESSOR && sim::compress_failures() > 0) {
         fired += sim::compress_failures();
-        sim::fault_fired("compress2 Z_MEM_ERROR", sim::compress_failures());
+        sim::fault_fired("compressor call failed", sim::compress_failures());
     }
     if (fk == F_ENCODER) { fired = 1; sim::fault_fired("unencodable string"); }
     sim::set_compress_fail_at(-1);
